@@ -43,8 +43,8 @@ RULE = ("one wheel per case: slot count N in {1..7,10,16,60,300}, interval in {1
 TRUSTED = ["the wheel model uses a plain association list for the timers index; that SafeMap refines a plain map is proved "
            "(c10_safemap_refines_map) and corresponded on its own histories (kind safemap)",
            "container/list (slots modelled as lists of heap ids), goroutine scheduling of the callback goroutines "
-           "(the driver waits until they have exited before the next call; bounded wait, timeouts counted in "
-           "input_distribution as obs:settle-timeout)",
+           "(the driver waits until they have exited or sit on one of its gates before the next call; every wait is bounded "
+           "(4 s per case): a case that exceeds it is reported as hung, fails both checkers and is counted as obs:HUNG)",
            "fake ticker timex.NewFakeTicker: one Tick() = one receive on ticker.Chan() by the run loop"]
 ASSUMPTIONS = ["operations are serialised through the run loop (the driver issues one call at a time and waits for "
                "the loop to finish it); callbacks may still be running (held on a driver gate) when later calls arrive: a "
@@ -332,6 +332,8 @@ def _encode_safemap(case, obs):
 def encode(case, obs):
     if case.get("kind") == "safemap":
         return _encode_safemap(case, obs)
+    if obs.get("skipped"):      # the driver stopped running cases after too many of them hung
+        return "CW (mkcase (1000)%Z (3)%Z [] true [] false)"
     calls = []
     for c in case["calls"]:
         op = c["op"]
@@ -350,7 +352,8 @@ def encode(case, obs):
         else:
             calls.append("XC CStop")
     os_ = ["mkObs %s %s %s" % (cnat(o["err"]), _pairs(o["fired"]), _pairs(o["drained"])) for o in obs.get("obs", [])]
-    return "CW (mkcase %s %s %s %s %s)" % (cZ(case["interval"]), cZ(case["slots"]), clist(calls), cbool(obs.get("new_ok", False)), clist(os_))
+    return "CW (mkcase %s %s %s %s %s %s)" % (cZ(case["interval"]), cZ(case["slots"]), clist(calls), cbool(obs.get("new_ok", False)),
+                                              clist(os_), cbool(bool(obs.get("hung"))))
 
 
 def _resched(case):
@@ -368,13 +371,15 @@ def _resched(case):
 def nontrivial(case, obs):
     if case.get("kind") == "safemap":
         return any(o["op"] == "get" for o in case["ops"]) and any(o["op"] in ("del", "churn") for o in case["ops"])
-    return any(o["fired"] for o in obs.get("obs", [])) and _resched(case)
+    return not obs.get("skipped") and any(o["fired"] for o in obs.get("obs", [])) and _resched(case)
 
 
 def bucket(case, obs):
     if case.get("kind") == "safemap":
         big = any(o["op"] == "churn" for o in case["ops"])
         return ["safemap:" + ("compaction" if big else "small")]
+    if obs.get("skipped"):
+        return ["obs:SKIPPED-after-hung-cases"]
     n = case["slots"]
     out = ["N=%s" % (n if n <= 7 else ("8-16" if n <= 16 else ">16")), "calls=%d" % (len(case["calls"]) // 50 * 50)]
     kinds = {c["op"] for c in case["calls"]}
@@ -398,8 +403,8 @@ def bucket(case, obs):
         out.append("obs:callback-after-last-call")
     errs = {o["err"] for o in obs.get("obs", [])}
     out += ["err:%d" % e for e in sorted(errs) if e]
-    if obs.get("timeouts"):
-        out.append("obs:settle-timeout")
+    if obs.get("hung"):
+        out.append("obs:HUNG")
     if any(o["drained"] for o in obs.get("obs", [])):
         out.append("obs:drained")
     if any(len(o["fired"]) > 1 for o in obs.get("obs", [])):
